@@ -241,6 +241,9 @@ def run_impl(sk, ops, tmp, keypath, environ=None, tape=None):
                     cfg.load_tree(copy.deepcopy(op["tree"]), validate=op.get("validate", True))
                 elif k == "validate":
                     cfg.validate()
+                elif k == "validate_collect":
+                    errs = cfg.validate(collect_errors=True)
+                    out = {"errors": [exc_out(e) for e in errs]}
                 elif k == "reset":
                     cc.reset_value(cfg, op["key"])
                 elif k == "defined":
@@ -271,6 +274,8 @@ def canon_out(o):
         return ("defined", o["defined"])
     if "tree" in o:
         return ("tree", F.canon_val(o["tree"]))
+    if "errors" in o:
+        return ("errors", tuple(canon_out(e) for e in o["errors"]))
     return ("?", json.dumps(o, sort_keys=True))
 
 
